@@ -54,12 +54,28 @@ fn case_strategy(tier: Tier) -> BoxedStrategy<HcCase> {
         prop_oneof![3 => 1u64..=9, 2 => 10u64..=80],
         0u64..=20,
         0u8..5,
-        prop::collection::vec(prop::collection::vec(result, 5..=max_checks), 1..=5),
+        prop_oneof![
+            3 => prop::collection::vec(prop::collection::vec(result.clone(), 5..=max_checks), 1..=5),
+            1 => prop::collection::vec(prop::collection::vec(result, 5..=max_checks), 6..=9),
+        ],
         prop::collection::vec((any::<bool>(), 1u8..=9), 1..=max_checks),
-        1u64..=70,
+        (1u64..=70, prop::bool::weighted(0.15)),
     )
         .prop_map(
-            |(failure_threshold, success_threshold, interval, timeout, initial_delay, strategy, scripts, bursts, slow_ms)| HcCase {
+            |(failure_threshold, success_threshold, interval, timeout, initial_delay, strategy, mut scripts, bursts, (slow_ms, all_slow))| {
+                if all_slow {
+                    // every check of every resource takes `slow_ms` (still below the timeout)
+                    for s in scripts.iter_mut() {
+                        for r in s.iter_mut() {
+                            *r = match *r {
+                                0 => 5,
+                                2 => 6,
+                                x => x,
+                            };
+                        }
+                    }
+                }
+                HcCase {
                 failure_threshold,
                 success_threshold,
                 interval,
@@ -69,6 +85,7 @@ fn case_strategy(tier: Tier) -> BoxedStrategy<HcCase> {
                 scripts,
                 bursts,
                 slow_ms,
+                }
             },
         )
         .boxed()
@@ -259,7 +276,22 @@ async fn interp(case: &HcCase) -> Verdict {
                 CheckEv::Served { res, k, result, .. } => {
                     ready.insert((*res, *k), Some(*result));
                 }
-                CheckEv::Dropped { res, k, .. } => {
+                CheckEv::Dropped { res, k, t } => {
+                    // a check is given its whole timeout: it may be abandoned only `timeout` after
+                    // it was started (time spent elsewhere does not count against it)
+                    let started = evs.iter().find_map(|e| match e {
+                        CheckEv::Start { res: r, k: kk, t: ts } if r == res && kk == k => Some(*ts),
+                        _ => None,
+                    });
+                    if let Some(ts) = started {
+                        if t - ts < case.timeout {
+                            violations.push(format!(
+                                "t={t}: check {k} of resource {res} was abandoned as timed out {} ms after it started; the check timeout is {} ms",
+                                t - ts,
+                                case.timeout
+                            ));
+                        }
+                    }
                     ready.insert((*res, *k), None);
                 }
             }
